@@ -1987,7 +1987,7 @@ class MPO(MPSGeometry):
         dist = s_norm - 2 * np.real(ov) + o_norm
         if dist < -1e-14 * (s_norm + o_norm):
             raise RuntimeError('Negative distance encountered.')
-        return abs(dist)
+        return np.sqrt(abs(dist))
 
     def _to_valid_index(self, i, bond=False):
         """Make sure `i` is a valid index of a site.
